@@ -645,7 +645,7 @@ func (w *world) applyStream(o op) (recv, res *entry, args []*entry, ran bool) {
 				args = append(args, e)
 			}
 		}
-		return reg(h.extend(hs), want)
+		return reg(h.extend(&w.w, hs), want)
 	case "s.Remove":
 		i := o.v(0, 0)
 		inRange := i >= 0 && i < len(a)
